@@ -177,6 +177,11 @@ class Models:
             return {'True': True, 'False': False, 'None': None}[name]
         if name == '__name__':
             return '__main__'
+        if name == 'NotImplemented':
+            from .models_np import NOTIMPL
+            return NOTIMPL
+        if name == 'Ellipsis':
+            return Ellipsis
         return None
 
     # -------------------------------------------------------------------------------------------
